@@ -48,8 +48,8 @@ def generate(rng, tier):
         if st['kind'] == 'msg':
             st['compression'] = rng.choice([0, 0, 1, 2])
         nd = rng.choice([2, 3, 4, 6]) if tier == 'quick' else rng.choice([3, 5, 8])
-        st['deliveries'] = [{'fault': rng.choice(FAULTS), 'pos': rng.random(), 'bit': rng.randrange(8), 'alt': rng.randrange(1 << 16)}
-                            for _ in range(nd)]
+        st['deliveries'] = [{'fault': rng.choice(FAULTS), 'pos': rng.random(), 'bit': rng.randrange(8), 'alt': rng.randrange(1 << 16),
+                             'copies': rng.random() < 0.35} for _ in range(nd)]
         steps.append(st)
     return {'config': {'keys': keys, 'start_us': 1_600_000_000_000_000}, 'steps': steps}
 
@@ -485,7 +485,7 @@ def _deliver(w, art, mut, definitely, d, step, ledger, ctx, pairs):
     # --- the verifier party
     try:
         with watchdog(30):
-            res = w.pgpy_verify(mut)
+            res = w.pgpy_verify(mut, copies=bool(d.get('copies')))
             truthy = bool(res)
             good = list(res.good_signatures)
     except CallTimeout:
